@@ -114,7 +114,8 @@ where
         'M' | 'W' => {
             let was = arena.collection_phase();
             match arena.finish_marking() {
-                Some(m) => {
+                #[allow(unused_mut)]
+                Some(mut m) => {
                     let dead = m.finalize(|fc, root| dead_check(fc, root));
                     if dead {
                         return Err(format!("[{}] a MarkedArena reports an object held by the root as dead", cx.log));
